@@ -1,0 +1,470 @@
+//! verification hooks, only compiled with `--cfg may_verif`
+//!
+//! a thin layer: schedule points at shared memory operations and
+//! virtualised blocking/time. all the logic lives in the installed `Hooks`.
+use std::collections::HashMap;
+use std::panic::Location;
+use std::sync::atomic::{AtomicPtr, Ordering as O};
+use std::sync::Mutex as StdMutex;
+use std::thread::ThreadId;
+use std::time::Duration;
+
+pub struct Hooks {
+    /// schedule point before a shared memory operation
+    pub point: fn(&'static Location<'static>),
+    /// block current thread on key until notified or the virtual deadline (ns)
+    /// return true if notified, false if timed out
+    /// the last flag tells it's a background (idle poll) wait
+    pub block: fn(usize, Option<u64>, bool) -> bool,
+    /// runtime event for progress tracking (1: coroutine resume)
+    pub event: fn(u32),
+    /// wake up all the threads blocked on key
+    pub notify: fn(usize),
+    /// virtual clock in ns
+    pub now_ns: fn() -> u64,
+    /// called in parent before spawning a runtime thread
+    pub spawn_token: fn(&'static str) -> usize,
+    /// called first in the spawned runtime thread
+    pub thread_begin: fn(usize),
+    /// a runtime thread is unwinding out of its main function
+    pub thread_died: fn(),
+    /// virtual thread yield
+    pub yield_now: fn(),
+    /// enter/exit a region where schedule points are suppressed
+    pub np_enter: fn(),
+    pub np_exit: fn(),
+}
+
+static HOOKS: AtomicPtr<Hooks> = AtomicPtr::new(std::ptr::null_mut());
+
+pub fn install(h: &'static Hooks) {
+    HOOKS.store(h as *const _ as *mut _, O::SeqCst);
+    may_queue::verif::install(queue_point, queue_sleep);
+}
+
+#[inline]
+pub fn hooks() -> Option<&'static Hooks> {
+    let p = HOOKS.load(O::Relaxed);
+    if p.is_null() {
+        None
+    } else {
+        Some(unsafe { &*p })
+    }
+}
+
+#[inline]
+pub fn active() -> bool {
+    !HOOKS.load(O::Relaxed).is_null()
+}
+
+fn queue_point(loc: &'static Location<'static>) {
+    if let Some(h) = hooks() {
+        (h.point)(loc);
+    }
+}
+
+fn queue_sleep(ns: u64) {
+    sleep(Duration::from_nanos(ns));
+}
+
+#[inline]
+#[track_caller]
+pub fn point() {
+    if let Some(h) = hooks() {
+        (h.point)(Location::caller());
+    }
+}
+
+pub struct NoPreempt(bool);
+pub fn no_preempt() -> NoPreempt {
+    match hooks() {
+        Some(h) => {
+            (h.np_enter)();
+            NoPreempt(true)
+        }
+        None => NoPreempt(false),
+    }
+}
+impl Drop for NoPreempt {
+    fn drop(&mut self) {
+        if self.0 {
+            if let Some(h) = hooks() {
+                (h.np_exit)();
+            }
+        }
+    }
+}
+
+pub fn now_ns() -> Option<u64> {
+    hooks().map(|h| (h.now_ns)())
+}
+
+fn deadline(dur: Option<Duration>) -> Option<u64> {
+    let h = hooks().unwrap();
+    dur.map(|d| (h.now_ns)().saturating_add(d.as_nanos().min(u64::MAX as u128) as u64))
+}
+
+/// virtual thread sleep, return false if not active
+pub fn sleep(dur: Duration) -> bool {
+    match hooks() {
+        Some(h) => {
+            let d = deadline(Some(dur));
+            // a private key never notified
+            let key = &d as *const _ as usize;
+            while (h.block)(key, d, false) {}
+            true
+        }
+        None => false,
+    }
+}
+
+pub fn yield_now() -> bool {
+    match hooks() {
+        Some(h) => {
+            (h.yield_now)();
+            true
+        }
+        None => false,
+    }
+}
+
+// std::thread::park/unpark emulation
+static TOKENS: StdMutex<Option<HashMap<ThreadId, bool>>> = StdMutex::new(None);
+
+fn thread_key(id: ThreadId) -> usize {
+    // ThreadId::as_u64 is unstable, use the debug format
+    let s = format!("{id:?}");
+    let n: usize = s
+        .trim_start_matches("ThreadId(")
+        .trim_end_matches(')')
+        .parse()
+        .unwrap();
+    // keys are address like, make thread keys odd and small
+    n * 2 + 1
+}
+
+fn take_token(id: ThreadId) -> bool {
+    let mut g = TOKENS.lock().unwrap();
+    let m = g.get_or_insert_with(HashMap::new);
+    m.insert(id, false).unwrap_or(false)
+}
+
+/// virtual std::thread::park, return false if not active
+pub fn thread_park(dur: Option<Duration>) -> bool {
+    let h = match hooks() {
+        Some(h) => h,
+        None => return false,
+    };
+    let id = std::thread::current().id();
+    let d = deadline(dur);
+    // make the following real park return immediately
+    std::thread::current().unpark();
+    loop {
+        if take_token(id) {
+            break;
+        }
+        if !(h.block)(thread_key(id), d, false) {
+            // timeout
+            take_token(id);
+            break;
+        }
+    }
+    true
+}
+
+/// virtual Thread::unpark
+pub fn thread_unpark(t: &std::thread::Thread) {
+    if let Some(h) = hooks() {
+        let id = t.id();
+        {
+            let mut g = TOKENS.lock().unwrap();
+            let m = g.get_or_insert_with(HashMap::new);
+            m.insert(id, true);
+        }
+        (h.notify)(thread_key(id));
+    }
+}
+
+/// block on an address like key
+pub fn block_on(key: usize, dur: Option<Duration>) -> bool {
+    let h = hooks().unwrap();
+    (h.block)(key, deadline(dur), false)
+}
+
+/// idle wait of a worker
+pub fn idle_wait(key: usize, dur: Option<Duration>) -> bool {
+    let h = hooks().unwrap();
+    (h.block)(key, deadline(dur), true)
+}
+
+pub fn event(kind: u32) {
+    if let Some(h) = hooks() {
+        (h.event)(kind);
+    }
+}
+
+pub fn block_until(key: usize, deadline: Option<u64>) -> bool {
+    let h = hooks().unwrap();
+    (h.block)(key, deadline, false)
+}
+
+pub fn notify(key: usize) {
+    if let Some(h) = hooks() {
+        (h.notify)(key);
+    }
+}
+
+pub fn spawn_token(name: &'static str) -> usize {
+    match hooks() {
+        Some(h) => (h.spawn_token)(name),
+        None => 0,
+    }
+}
+
+/// dropped when the runtime thread leaves its main function, which only
+/// happens by a panic: report it instead of keeping the baton for ever
+pub struct ThreadGuard(());
+
+impl Drop for ThreadGuard {
+    fn drop(&mut self) {
+        if let Some(h) = hooks() {
+            (h.thread_died)();
+        }
+    }
+}
+
+#[must_use]
+pub fn thread_begin(token: usize) -> ThreadGuard {
+    if let Some(h) = hooks() {
+        (h.thread_begin)(token);
+    }
+    ThreadGuard(())
+}
+
+////////////////////////////////////////////////////////////////////////////////
+// virtual Instant
+////////////////////////////////////////////////////////////////////////////////
+
+#[derive(Copy, Clone, PartialEq, Eq, PartialOrd, Ord, Debug)]
+pub struct Instant(u64);
+
+impl Instant {
+    pub fn now() -> Instant {
+        match now_ns() {
+            Some(t) => Instant(t),
+            None => Instant(crate::timeout_list::now()),
+        }
+    }
+    pub fn elapsed(&self) -> Duration {
+        Instant::now() - *self
+    }
+    pub fn duration_since(&self, earlier: Instant) -> Duration {
+        *self - earlier
+    }
+}
+
+impl std::ops::Add<Duration> for Instant {
+    type Output = Instant;
+    fn add(self, d: Duration) -> Instant {
+        Instant(
+            self.0
+                .saturating_add(d.as_nanos().min(u64::MAX as u128) as u64),
+        )
+    }
+}
+
+impl std::ops::Sub<Instant> for Instant {
+    type Output = Duration;
+    fn sub(self, o: Instant) -> Duration {
+        Duration::from_nanos(self.0.saturating_sub(o.0))
+    }
+}
+
+////////////////////////////////////////////////////////////////////////////////
+// atomic shims
+////////////////////////////////////////////////////////////////////////////////
+
+pub mod atomic {
+    pub use std::sync::atomic::{fence, Ordering};
+    use std::sync::atomic as std_atomic;
+
+    macro_rules! shim_int {
+        ($name:ident, $t:ty) => {
+            #[derive(Default)]
+            pub struct $name(std_atomic::$name);
+            impl std::fmt::Debug for $name {
+                fn fmt(&self, f: &mut std::fmt::Formatter<'_>) -> std::fmt::Result {
+                    self.0.fmt(f)
+                }
+            }
+            impl From<$t> for $name {
+                fn from(v: $t) -> Self {
+                    Self::new(v)
+                }
+            }
+            impl $name {
+                pub const fn new(v: $t) -> Self {
+                    Self(std_atomic::$name::new(v))
+                }
+                pub fn get_mut(&mut self) -> &mut $t {
+                    self.0.get_mut()
+                }
+                pub fn into_inner(self) -> $t {
+                    self.0.into_inner()
+                }
+                #[track_caller]
+                #[inline]
+                pub fn load(&self, o: Ordering) -> $t {
+                    super::point();
+                    self.0.load(o)
+                }
+                #[track_caller]
+                #[inline]
+                pub fn store(&self, v: $t, o: Ordering) {
+                    super::point();
+                    self.0.store(v, o)
+                }
+                #[track_caller]
+                #[inline]
+                pub fn swap(&self, v: $t, o: Ordering) -> $t {
+                    super::point();
+                    self.0.swap(v, o)
+                }
+                #[track_caller]
+                #[inline]
+                pub fn compare_exchange(
+                    &self,
+                    c: $t,
+                    n: $t,
+                    s: Ordering,
+                    f: Ordering,
+                ) -> Result<$t, $t> {
+                    super::point();
+                    self.0.compare_exchange(c, n, s, f)
+                }
+                #[track_caller]
+                #[inline]
+                pub fn compare_exchange_weak(
+                    &self,
+                    c: $t,
+                    n: $t,
+                    s: Ordering,
+                    f: Ordering,
+                ) -> Result<$t, $t> {
+                    super::point();
+                    self.0.compare_exchange(c, n, s, f)
+                }
+                #[track_caller]
+                #[inline]
+                pub fn fetch_and(&self, v: $t, o: Ordering) -> $t {
+                    super::point();
+                    self.0.fetch_and(v, o)
+                }
+                #[track_caller]
+                #[inline]
+                pub fn fetch_or(&self, v: $t, o: Ordering) -> $t {
+                    super::point();
+                    self.0.fetch_or(v, o)
+                }
+            }
+        };
+    }
+    macro_rules! shim_arith {
+        ($name:ident, $t:ty) => {
+            impl $name {
+                #[track_caller]
+                #[inline]
+                pub fn fetch_add(&self, v: $t, o: Ordering) -> $t {
+                    super::point();
+                    self.0.fetch_add(v, o)
+                }
+                #[track_caller]
+                #[inline]
+                pub fn fetch_sub(&self, v: $t, o: Ordering) -> $t {
+                    super::point();
+                    self.0.fetch_sub(v, o)
+                }
+            }
+        };
+    }
+    shim_int!(AtomicBool, bool);
+    shim_int!(AtomicUsize, usize);
+    shim_int!(AtomicIsize, isize);
+    shim_int!(AtomicU64, u64);
+    shim_arith!(AtomicUsize, usize);
+    shim_arith!(AtomicIsize, isize);
+    shim_arith!(AtomicU64, u64);
+
+    pub struct AtomicPtr<T>(std_atomic::AtomicPtr<T>);
+    impl<T> std::fmt::Debug for AtomicPtr<T> {
+        fn fmt(&self, f: &mut std::fmt::Formatter<'_>) -> std::fmt::Result {
+            self.0.fmt(f)
+        }
+    }
+    impl<T> AtomicPtr<T> {
+        pub const fn new(v: *mut T) -> Self {
+            Self(std_atomic::AtomicPtr::new(v))
+        }
+        #[track_caller]
+        #[inline]
+        pub fn load(&self, o: Ordering) -> *mut T {
+            super::point();
+            self.0.load(o)
+        }
+        #[track_caller]
+        #[inline]
+        pub fn store(&self, v: *mut T, o: Ordering) {
+            super::point();
+            self.0.store(v, o)
+        }
+        #[track_caller]
+        #[inline]
+        pub fn swap(&self, v: *mut T, o: Ordering) -> *mut T {
+            super::point();
+            self.0.swap(v, o)
+        }
+    }
+}
+
+/// shadow of `std::thread` with virtual park
+pub mod thread {
+    pub use std::thread::*;
+    pub fn park() {
+        super::thread_park(None);
+        std::thread::park();
+    }
+    pub fn park_timeout(dur: std::time::Duration) {
+        if !super::thread_park(Some(dur)) {
+            std::thread::park_timeout(dur);
+        }
+    }
+}
+
+/// `crossbeam::queue::SegQueue` with a schedule point before every operation
+pub struct SegQueue<T>(crossbeam::queue::SegQueue<T>);
+
+impl<T> SegQueue<T> {
+    pub const fn new() -> Self {
+        SegQueue(crossbeam::queue::SegQueue::new())
+    }
+    #[track_caller]
+    pub fn push(&self, t: T) {
+        point();
+        self.0.push(t)
+    }
+    #[track_caller]
+    pub fn pop(&self) -> Option<T> {
+        point();
+        self.0.pop()
+    }
+    #[track_caller]
+    pub fn is_empty(&self) -> bool {
+        point();
+        self.0.is_empty()
+    }
+    #[track_caller]
+    pub fn len(&self) -> usize {
+        point();
+        self.0.len()
+    }
+}
